@@ -137,6 +137,8 @@ func c05Cases(tier string) []SchedCase {
 	for _, tr := range []string{"", "sse", "mixed", "ws"} {
 		out = append(out, SchedCase{Case: Case{Op: Op{Text: `{t{kidReq{id} ... @defer{name}}}`}, Plan: planOf("t.kidReq", "error"), Yield: true, Cancel: false}, Transport: tr, Name: tr + " failing sibling of a deferred fragment", Bound: &zero})
 		out = append(out, SchedCase{Case: Case{Op: Op{Text: `{ts{req ... @defer{name}}}`}, Plan: planOf("ts[1].req", "error"), Yield: true, Cancel: false}, Transport: tr, Name: tr + " failing list element with a deferred fragment", Bound: &zero})
+		// deferred groups that belong to list elements outlive the list's own completion
+		out = append(out, SchedCase{Case: Case{Op: Op{Text: `{ts{id ... @defer{name}}}`}, Yield: true, Cancel: false}, Transport: tr, Name: tr + " deferred fragment in every list element, no cancellation", Bound: map[bool]*int{true: &one, false: &zero}[tr == ""]})
 	}
 	// requests REJECTED before execution leave nothing running either
 	for _, tr := range []string{"post", "sse", "mixed", "ws"} {
@@ -185,6 +187,21 @@ func c04Cases(tier string) []SchedCase {
 	add("post2", `{ts{boom}}`, planOf("marshal:boom@ts[1]", "panic"), false)
 	add("post2", `{t{name}}`, planOf("t.name", "panic"), false)
 	add("post2", `{argBoom(b:"x") str}`, planOf("unmarshal:x", "panic"), false)
+	// the same failures on a websocket connection (the per-operation goroutine of the transport
+	// has its own panic handler), and with the recover hook installed per operation
+	add("ws", `{t{boom name}}`, planOf("marshal:boom@t", "panic"), false)
+	add("ws", `{t{name}}`, planOf("t.name", "panic"), false)
+	add("ws", `{t{req}}`, planOf("t.req", "error"), false)
+	for _, tr := range []string{"post2", "ws", ""} {
+		for _, kv := range [][]string{{`{t{boom name}}`, "marshal:boom@t"}, {`{ts{name}}`, "ts[1].name"}, {`{t{guarded}}`, "@t.guarded"}} {
+			if tr != "ws" && strings.HasPrefix(kv[1], "marshal:") {
+				// direct runs have no transport to serialize; on POST a serialization-time panic is
+				// caught by the server's own handler, which has no operation and uses the server-wide hook
+				continue
+			}
+			out = append(out, SchedCase{Case: Case{Op: Op{Text: kv[0]}, Plan: planOf(kv[1], "panic"), Intercept: true, OpRecover: true}, Transport: tr, Name: tr + " " + kv[0] + " | " + kv[1] + "=panic, per-operation recover hook"})
+		}
+	}
 	// subscription events: a resolver below an event panics / errors
 	add("", `subscription{tick{id name}}`, planOf("tick.name", "panic"), true)
 	add("", `subscription{tick{id req}}`, planOf("tick.req", "error"), true)
@@ -217,6 +234,7 @@ type schedInst struct {
 	prop string
 	rw   *rig.RW
 	rw2  *rig.RW
+	wsConn *rig.Conn
 	// response of transports
 	handlerDone bool
 }
@@ -252,12 +270,7 @@ func (si *schedInst) Body() {
 	case "post", "post2":
 		srv.AddTransport(transport.POST{})
 		srv.Use(FaultExt{Cur: func() *Env { return s.cur }})
-		srv.SetRecoverFunc(func(ctx context.Context, err any) error {
-			in.Env.mu.Lock()
-			in.Env.Panics++
-			in.Env.mu.Unlock()
-			return fmt.Errorf("PANIC:%v", err)
-		})
+		in.InstallRecover(srv.SetRecoverFunc, srv.Use)
 	case "get":
 		srv.AddTransport(transport.GET{})
 		req = httptest.NewRequest("GET", "/query?query="+urlEscape(in.C.Op.Text), nil)
@@ -267,6 +280,10 @@ func (si *schedInst) Body() {
 	case "mixed":
 		srv.AddTransport(transport.MultipartMixed{})
 		req.Header.Set("Accept", "multipart/mixed")
+	}
+	if si.prop == "C04" && si.sc.Transport == "ws" {
+		srv.Use(FaultExt{Cur: func() *Env { return s.cur }})
+		in.InstallRecover(srv.SetRecoverFunc, srv.Use)
 	}
 	if si.sc.Transport == "ws" || si.sc.Transport == "ws-timeout" || si.sc.Transport == "ws2" {
 		si.serveWebsocket(ctx, srv, body)
@@ -359,6 +376,58 @@ func (si *schedInst) checkFaultScenario(x *explore.Exec) (string, string) {
 		if o == "panic" || o == "rogue" {
 			injected++
 		}
+	}
+	if si.Env.WrongHook > 0 {
+		return "recover-hook-wrong", fmt.Sprintf("the server-wide recover hook ran %d times although the operation carries its own", si.Env.WrongHook)
+	}
+	if si.sc.Transport == "ws" {
+		// one operation on a websocket connection: the frames are well-formed, the operation ends
+		// with `complete` after its payload or with one `error` frame, the hook ran once per panic
+		out := si.wsConn.Out
+		if i := bytes.Index(out, []byte("\r\n\r\n")); i >= 0 {
+			out = out[i+4:]
+		}
+		frames, _, err := rig.ParseServerFrames(out)
+		if err != nil {
+			return "ws:bad-frame", err.Error()
+		}
+		var kinds []string
+		nerr := 0
+		for _, f := range frames {
+			if f.Op != rig.OpText {
+				continue
+			}
+			var m struct {
+				Type    string          `json:"type"`
+				ID      string          `json:"id"`
+				Payload json.RawMessage `json:"payload"`
+			}
+			if err := json.Unmarshal(f.Payload, &m); err != nil {
+				return "ws:frame-not-json", string(f.Payload)
+			}
+			kinds = append(kinds, m.Type)
+			switch m.Type {
+			case "next":
+				var r struct{ Errors []any }
+				json.Unmarshal(m.Payload, &r)
+				nerr += len(r.Errors)
+			case "error":
+				var es []any
+				json.Unmarshal(m.Payload, &es)
+				nerr += len(es)
+			}
+		}
+		seq := strings.Join(kinds, ",")
+		if seq != "connection_ack,next,complete" && seq != "connection_ack,error" && seq != "connection_ack,error,complete" {
+			return "ws:frame-sequence", seq
+		}
+		if nerr != 1 {
+			return "ws:error-count", fmt.Sprintf("want exactly one error for one injected failure, got %d (%s)", nerr, seq)
+		}
+		if si.Env.Panics != injected {
+			return "recover-hook-count", fmt.Sprintf("recover hook ran %d times for %d injected panics", si.Env.Panics, injected)
+		}
+		return "", ""
 	}
 	if si.sc.Transport == "post2" {
 		var body map[string]any
@@ -666,6 +735,7 @@ func (s *Shared) schedMain(prop, tier string) {
 // the client stays silent and the init timeout is what ends the session.
 func (si *schedInst) serveWebsocket(ctx context.Context, srv *handler.Server, params []byte) {
 	conn := rig.NewConn()
+	si.wsConn = conn
 	done := false
 	conn.OnWrite = func(p []byte) {
 		if bytes.Contains(conn.Out, []byte(`"type":"complete"`)) || bytes.Contains(conn.Out, []byte(`"type":"error"`)) {
